@@ -105,11 +105,12 @@ Proj == [samples |-> [n \in Idx(samples) |-> ProjSample(samples[n])],
 ApplyState(w, i, k) ==
     LET old == inst[i]
         writers1 == CASE k = "ALIVE" -> old.writers \cup {w}
-                      [] k = "UNREGISTERED" -> old.writers \ {w}
+                      [] k \in {"UNREGISTERED", "DISPOSED_UNREGISTERED"} -> old.writers \ {w}
                       [] OTHER -> old.writers
         reborn == old.known /\ old.is # "ALIVE" /\ k = "ALIVE"
         is1 == CASE k = "ALIVE" -> "ALIVE"
-                 [] k = "DISPOSED" -> IF old.is = "ALIVE" THEN "DISPOSED" ELSE old.is
+                 \* an unregister of a writer with autodispose_unregistered_instances disposes the instance as well
+                 [] k \in {"DISPOSED", "DISPOSED_UNREGISTERED"} -> IF old.is = "ALIVE" THEN "DISPOSED" ELSE old.is
                  [] k = "UNREGISTERED" ->
                         IF old.is = "ALIVE" /\ writers1 = {} THEN "NO_WRITERS" ELSE old.is
     IN [known |-> TRUE,
@@ -162,6 +163,7 @@ AddChange(w, i, k, ts) ==
     /\ k # "ALIVE" /\ inst[i].known => w \in inst[i].writers
     /\ k = "DISPOSED" => inst[i].is # "NO_WRITERS"
     /\ k = "UNREGISTERED" => inst[i].is # "DISPOSED"
+    /\ k = "DISPOSED_UNREGISTERED" => (inst[i].known => inst[i].is = "ALIVE")
     \* whether a dispose by the owner releases the ownership is left open by C24: until the
     \* owner writes again, changes of other writers are outside the enumerated domain
     /\ (Exclusive /\ inst[i].known /\ inst[i].is = "DISPOSED" /\ owner[i] # NoWriter) => w = owner[i]
@@ -203,7 +205,7 @@ AddChange(w, i, k, ts) ==
             /\ samples' = InsertAt(base, InsertPos(base, ts), new)
             /\ inst' = [inst EXCEPT ![i] = st]
             /\ owner' = IF ~Exclusive THEN owner
-                        ELSE IF k = "UNREGISTERED" THEN [owner EXCEPT ![i] = NoWriter]
+                        ELSE IF k \in {"UNREGISTERED", "DISPOSED_UNREGISTERED"} THEN [owner EXCEPT ![i] = NoWriter]
                         ELSE [owner EXCEPT ![i] = w]
             /\ acc' = IF k = "ALIVE" /\ MinSep > 0 THEN [acc EXCEPT ![i] = @ \cup {ts}] ELSE acc
             /\ hist' = Append(hist, rec("Added"))
